@@ -6,4 +6,6 @@ import "time"
 
 func verifPollHook(any, time.Time) {}
 
-func verifAddHook(time.Time) {}
+func verifAddHook(any, time.Time) {}
+
+func verifPopHook(any, time.Time) {}
